@@ -3,6 +3,7 @@ from netqasm.backend.messages import MsgDoneMessage
 from netqasm.backend.qnodeos import QNodeController
 
 from simulaqron.netqasm_backend.executioner import VanillaSimulaQronExecutioner
+from simulaqron.netqasm_backend.factory import current_protocol
 
 
 class SubroutineHandler(QNodeController):
@@ -44,7 +45,8 @@ class SubroutineHandler(QNodeController):
         self.factory.stop()
 
     def _return_msg(self, msg):
-        """Return a message to the host"""
-        assert self._protocol is not None, "Seems protocol of handler has not yet been set"
+        """Return a message to the host, on the connection its request arrived on"""
+        protocol = current_protocol.get() or self._protocol
+        assert protocol is not None, "Seems protocol of handler has not yet been set"
         self._logger.debug(f"sending message {msg} to host")
-        self.protocol._return_msg(msg=bytes(msg))
+        protocol._return_msg(msg=bytes(msg))
